@@ -98,13 +98,75 @@ class ThreadGen:
         return '\n'.join(lines)
 
 
-def make_scenarios(seed, count, prefix, cap, kinds=('epoch', 'id'), long_share=0.1, seq_share=0.0):
+def staircase_scenario(rng, sid, cap):
+    """fully serialised history (await / bump turn counter): worker j pins an epoch after the coordinator's
+    (j+1)-th hop over a range boundary; the pins are released in a random order, with further hops in
+    between - kept nodes then sit between the head and an out-dated node of the chain"""
+    nworkers = min(rng.randrange(2, 4), max(1, cap))
+    events = []          # (thread, instruction)
+    coord = nworkers
+    order = list(range(nworkers))
+    events.append((coord, f'fwd {rng.choice([200, 300, 301])}'))
+    for j in order:
+        events.append((j, f'guard {2 * j}'))
+        events.append((coord, f'fwd {rng.choice([255, 256, 257, 300])}'))
+    rel = order[:]
+    rng.shuffle(rel)
+    for j in rel:
+        if rng.random() < 0.5:
+            events.append((j, f'gepoch {2 * j}'))
+        events.append((j, f'unguard {2 * j}'))
+        events.append((coord, f'fwd {rng.choice([1, 2, 3, 256])}'))
+    events.append((coord, 'fwd 2'))
+    progs = [[f'probe {rng.randrange(cap)}'] for _ in range(nworkers)] + [[]]
+    for turn, (t, ins) in enumerate(events):
+        progs[t] += [f'await {turn}', ins, 'bump']
+    progs[coord] += ['min', 'cur']
+    head = (f'SCEN {sid} comp=thread nvars={2 * nworkers} policy={rng.choice([0, 1, 2])} seed={rng.randrange(1, 1 << 30)} '
+            f'max_steps=400000 seq=1')
+    return '\n'.join([head] + ['T ' + ';'.join(p) for p in progs] + ['GO'])
+
+
+def deep_scenario(rng, sid, cap, sequential):
+    if sequential and rng.random() < 0.5:
+        return staircase_scenario(rng, sid, cap)
+    """guards pinned in different 256-epoch ranges while the coordinator walks over several range boundaries:
+    exercises the pruning walk with kept nodes between the head and an out-dated node"""
+    nworkers = rng.randrange(1, max(2, cap))
+    progs = []
+    for t in range(nworkers):
+        ops = [f'probe {rng.randrange(cap)}']
+        for _ in range(rng.randrange(1, 4)):
+            v = 2 * t
+            ops += [rng.choice([f'guard {v}', f'gpe {v}'])]
+            if rng.random() < 0.5:
+                ops.append('cur')
+            if ops[-2 if ops[-1] == 'cur' else -1].startswith('gpe'):
+                ops.append(f'relist {v}')
+            ops.append(f'unguard {v}')
+        progs.append(ops)
+    coord = []
+    for _ in range(rng.randrange(4, 8)):
+        coord.append(f'fwd {rng.choice([100, 180, 255, 256, 257, 300, 400])}')
+        if rng.random() < 0.3:
+            coord.append(rng.choice(['min', 'cur']))
+    progs.append(coord)
+    policy = 4 if sequential else rng.choice([1, 2])
+    head = (f'SCEN {sid} comp=thread nvars={2 * nworkers} policy={policy} seed={rng.randrange(1, 1 << 30)} '
+            f'max_steps=120000' + (' seq=1' if sequential else ''))
+    return '\n'.join([head] + ['T ' + ';'.join(p) for p in progs] + ['GO'])
+
+
+def make_scenarios(seed, count, prefix, cap, kinds=('epoch', 'id'), long_share=0.1, seq_share=0.0, deep_share=0.0):
     rng = random.Random(f'thread-{seed}-{cap}')
     out = []
     for i in range(count):
         g = ThreadGen(rng, cap)
         kind = rng.choice(kinds)
         seq = kind == 'epoch' and rng.random() < seq_share
+        if kind == 'epoch' and cap >= 2 and rng.random() < deep_share:
+            out.append(deep_scenario(rng, f'{prefix}{i}', cap, seq))
+            continue
         out.append(g.scenario(f'{prefix}{i}', kind=kind, long_run=(kind == 'epoch' and rng.random() < long_share),
                               sequential=seq))
     return out
